@@ -11,13 +11,13 @@
 (ii) invariant tests: contracts of the C15 grammar with two invariants are run as [i0], [i1],
     [i0,i1], [i1,i0], [i0,i1,i0]; verdict, counterexample count and path counts of each
     invariant must be identical (the frontier cache is shared between them).
-(iv) process stability: a test with 25-60 counterexamples is run 12-20 times in one forked process;
-    the process must survive and every repetition must give the same result.
 (iii) path-level (SEVM.run through the C01 engine): programs whose two arms of a fork write
     different values to the same storage slot / memory word / transient slot, call a callee with
     different arguments, or use the branched-on term where halmos needs a concrete value (memory
     offset); every reported path must satisfy the C01 oracle against the reference EVM, in both arm
     orders and nested (a leak shows up as the other arm's value).
+(iv) process stability: a test with 25-60 counterexamples is run 12-20 times in one forked process;
+    the process must survive and every repetition must give the same result.
 """
 
 from __future__ import annotations
